@@ -6,6 +6,7 @@
 //   - hook events emitted inside the state mutex (Commit, StateU with the full
 //     physical projection of every touched table: btree + layers of every index,
 //     Info statistics)
+//
 // as one ndjson trace for TraceDb.tla.
 package main
 
@@ -79,6 +80,27 @@ var profiles = map[string]profile{
 			{name: "t1", admin: "create t1 (k,u,v,w) key(k) index unique(u) index(v)", ncols: 4, dom: []int{8, 3, 2, 3}, opt: []bool{false, true, true, true}},
 			{name: "t2", admin: "create t2 (p,q,r) key(p,q) index(r)", ncols: 3, dom: []int{2, 3, 2}, opt: []bool{false, true, true}},
 		}},
+	"fkeypairs": {name: "fkeypairs", pairs: 60, maxOps: 4, readFrac: 10, persist: 3 * time.Millisecond,
+		tables: []tableDef{
+			{name: "tg", admin: "create tg (id,x) key(id)", ncols: 2, dom: []int{3, 2}, opt: []bool{false, true}},
+			{name: "sb", admin: "create sb (sk,id) key(sk) index(id) in tg", ncols: 2, dom: []int{3, 3}, opt: []bool{false, true}},
+			{name: "sc", admin: "create sc (ck,id) key(ck) index(id) in tg cascade", ncols: 2, dom: []int{3, 3}, opt: []bool{false, true}},
+			{name: "su", admin: "create su (uk,id) key(uk) index(id) in tg cascade update", ncols: 2, dom: []int{3, 3}, opt: []bool{false, true}},
+		}},
+	// triggers on every table incl. cascade generated changes, throwing triggers, nested disable/enable
+	"trigpairs": {name: "trigpairs", pairs: 60, maxOps: 4, readFrac: 10, persist: 3 * time.Millisecond, triggers: true,
+		tables: []tableDef{
+			{name: "tg", admin: "create tg (id,x) key(id)", ncols: 2, dom: []int{3, 2}, opt: []bool{false, true}},
+			{name: "sc", admin: "create sc (ck,id) key(ck) index(id) in tg cascade", ncols: 2, dom: []int{3, 3}, opt: []bool{false, true}},
+			{name: "su", admin: "create su (uk,id) key(uk) index(id) in tg cascade update", ncols: 2, dom: []int{3, 3}, opt: []bool{false, true}},
+			{name: "t1", admin: "create t1 (k,u,v) key(k) index unique(u) index(v)", ncols: 3, dom: []int{4, 3, 2}, opt: []bool{false, true, true}},
+		}},
+	"trig": {name: "trig", clients: 3, trans: 40, maxOps: 4, readFrac: 10, persist: 5 * time.Millisecond, triggers: true,
+		tables: []tableDef{
+			{name: "tg", admin: "create tg (id,x) key(id)", ncols: 2, dom: []int{4, 2}, opt: []bool{false, true}},
+			{name: "sc", admin: "create sc (ck,id) key(ck) index(id) in tg cascade", ncols: 2, dom: []int{4, 4}, opt: []bool{false, true}},
+			{name: "su", admin: "create su (uk,id) key(uk) index(id) in tg cascade update", ncols: 2, dom: []int{4, 4}, opt: []bool{false, true}},
+		}},
 	// foreign keys in all three modes + self reference
 	"fkey": {name: "fkey", clients: 3, trans: 40, maxOps: 4, readFrac: 15, persist: 5 * time.Millisecond,
 		tables: []tableDef{
@@ -148,6 +170,7 @@ func main() {
 }
 
 func scenario(seed int64, sn int) (int, int) {
+	trigOff = map[string]int{}
 	commits.Store(0)
 	nextId.Store(0)
 	nState = 0
@@ -160,6 +183,9 @@ func scenario(seed int64, sn int) (int, int) {
 		query.DoAdmin(db, td.admin, nil)
 	}
 	db.Persist()
+	if prof.triggers {
+		defineTriggers()
+	}
 	vh.SetSink(sink)
 	emitSchema()
 	// register the initial state and emit a full projection
@@ -208,6 +234,45 @@ func scenario(seed int64, sn int) (int, int) {
 	final := db.GetState()
 	_ = final
 	return int(ntran.Load()), int(commits.Load())
+}
+
+// ---------------------------------------------------------------- triggers
+
+var thClient sync.Map // *core.Thread -> *client
+
+func trigVals(th *core.Thread, v core.Value, cols []string) []int {
+	if v == core.False {
+		return []int{}
+	}
+	row := make([]int, len(cols))
+	for i, col := range cols {
+		x := v.Get(th, core.SuStr(col))
+		if x != nil && x != core.EmptyStr {
+			row[i] = core.ToInt(x)
+		}
+	}
+	return row
+}
+
+func defineTriggers() {
+	for _, td := range prof.tables {
+		td := td
+		cols := db.GetState().Meta.GetRoSchema(td.name).Columns
+		fn := &core.SuBuiltin{Fn: func(th *core.Thread, args []core.Value) core.Value {
+			if v, ok := thClient.Load(th); ok {
+				c := v.(*client)
+				c.trig = append(c.trig, map[string]any{"tbl": td.name,
+					"old": trigVals(th, args[1], cols), "new": trigVals(th, args[2], cols)})
+				if c.throw {
+					c.throw = false
+					panic("trigger threw (verif)")
+				}
+			}
+			return nil
+		}, BuiltinParams: core.BuiltinParams{ParamSpec: core.ParamSpec{Nparams: 3, Signature: ^core.Sig3,
+			Flags: []core.Flag{0, 0, 0}, Names: []string{"t", "oldrec", "newrec"}}}}
+		core.Global.TestDef("Trigger_"+td.name, fn)
+	}
 }
 
 // ---------------------------------------------------------------- admin
@@ -311,7 +376,11 @@ func schemaEvent(name string, m *meta.Meta) *vh.Ev {
 			idx = append(idx, map[string]any{"cols": cols, "kcols": kcols, "kcols2": kcols2, "mode": string(rune(ix.Mode)),
 				"fktable": ix.Fk.Table, "fkix": ix.Fk.IIndex + 1, "fkmode": int(ix.Fk.Mode), "fkn": fkcols})
 		}
-		tabs = append(tabs, map[string]any{"name": td.name, "ncols": td.ncols, "idx": idx})
+		trig := 0
+		if prof.triggers {
+			trig = 1
+		}
+		tabs = append(tabs, map[string]any{"name": td.name, "ncols": td.ncols, "idx": idx, "trig": trig})
 	}
 	return vh.E(name, "tables", tabs)
 }
@@ -487,14 +556,16 @@ func recLen(row []int) int {
 // ---------------------------------------------------------------- clients
 
 type client struct {
-	r    *rand.Rand
-	id   int
-	ut   *db19.UpdateTran
-	rt   *db19.ReadTran
-	dead bool
-	done bool
-	th   *core.Thread
-	hot  *hotspot // shared by the transactions of one interleaved group
+	r     *rand.Rand
+	id    int
+	ut    *db19.UpdateTran
+	rt    *db19.ReadTran
+	dead  bool
+	done  bool
+	th    *core.Thread
+	hot   *hotspot // shared by the transactions of one interleaved group
+	trig  []any    // trigger calls observed during the current operation
+	throw bool     // make the next trigger call of this client throw
 }
 
 func (c *client) tran() interface {
@@ -575,6 +646,7 @@ func oneTran(r *rand.Rand) {
 
 func beginTran(r *rand.Rand, update bool) *client {
 	c := &client{r: r, id: int(nextId.Add(1)), th: &core.Thread{}}
+	thClient.Store(c.th, c)
 	tr.Emit(vh.E("BeginCall", "t", c.id))
 	if update {
 		c.ut = db.NewUpdateTran()
@@ -594,6 +666,7 @@ func beginTran(r *rand.Rand, update bool) *client {
 func (c *client) finish() {
 	r := c.r
 	c.done = true
+	thClient.Delete(c.th)
 	if c.ut != nil {
 		if !c.dead && r.Intn(12) == 0 {
 			c.ut.Abort()
@@ -636,6 +709,10 @@ func clip(s string) string {
 func (c *client) op() {
 	td := c.pickTable()
 	n := c.r.Intn(100)
+	if prof.triggers && prof.pairs > 0 && c.r.Intn(12) == 0 {
+		c.toggleTrigger()
+		return
+	}
 	if c.ut == nil {
 		if n < 50 {
 			c.lookup(td)
@@ -696,13 +773,15 @@ func (c *client) randRow(td tableDef) []int {
 func classify(e any) string {
 	s := fmt.Sprint(e)
 	switch {
+	case strings.Contains(s, "trigger threw (verif)"):
+		return "trigger"
 	case strings.Contains(s, "duplicate key"):
 		return "dup"
 	case strings.Contains(s, "blocked by foreign key"):
 		return "fk"
 	case strings.Contains(s, "transaction aborted"), strings.Contains(s, "transaction already ended"):
 		return "aborted"
-	case strings.Contains(s, "trigger"):
+	case strings.Contains(s, "trigger threw (verif)"):
 		return "trigger"
 	}
 	return "other:" + clip(s)
@@ -839,10 +918,41 @@ func (c *client) scan(td tableDef) {
 		"limit", limit, "rows", rows, "eof", eof, "res", res))
 }
 
+func (c *client) armTrigger() {
+	c.trig = nil
+	c.throw = prof.triggers && c.r.Intn(8) == 0
+}
+
+func (c *client) trigs() []any {
+	c.throw = false
+	if c.trig == nil {
+		return []any{}
+	}
+	return c.trig
+}
+
+// toggleTrigger disables / re-enables the trigger of a table (nested counts);
+// only used when a single goroutine drives all transactions
+func (c *client) toggleTrigger() {
+	td := c.pickTable()
+	if trigOff[td.name] > 0 && c.r.Intn(2) == 0 {
+		db.EnableTrigger(td.name)
+		trigOff[td.name]--
+		tr.Emit(vh.E("TrigEnable", "tbl", td.name))
+	} else if trigOff[td.name] < 2 {
+		db.DisableTrigger(td.name)
+		trigOff[td.name]++
+		tr.Emit(vh.E("TrigDisable", "tbl", td.name))
+	}
+}
+
+var trigOff = map[string]int{}
+
 func (c *client) output(td tableDef) {
 	row := c.randRow(td)
+	c.armTrigger()
 	res := c.guard(func() { c.ut.Output(c.th, td.name, recOf(row)) })
-	tr.Emit(vh.E("Output", "t", c.id, "tbl", td.name, "row", row, "len", recLen(row), "res", res))
+	tr.Emit(vh.E("Output", "t", c.id, "tbl", td.name, "row", row, "len", recLen(row), "res", res, "trig", c.trigs()))
 }
 
 // pick an existing row through a scan step on the first index (this registers a read)
@@ -927,9 +1037,10 @@ func (c *client) update(td tableDef) {
 			nw[i] = 1 + c.r.Intn(td.dom[i])
 		}
 	}
+	c.armTrigger()
 	res := c.guard(func() { c.ut.Update(c.th, td.name, dr.Off, recOf(nw)) })
 	tr.Emit(vh.E("Update", "t", c.id, "tbl", td.name, "old", old, "new", nw,
-		"oldlen", recLen(old), "newlen", recLen(nw), "res", res))
+		"oldlen", recLen(old), "newlen", recLen(nw), "res", res, "trig", c.trigs()))
 }
 
 func (c *client) delete(td tableDef) {
@@ -937,8 +1048,9 @@ func (c *client) delete(td tableDef) {
 	if dr == nil {
 		return
 	}
+	c.armTrigger()
 	res := c.guard(func() { c.ut.Delete(c.th, td.name, dr.Off) })
-	tr.Emit(vh.E("Delete", "t", c.id, "tbl", td.name, "row", old, "len", recLen(old), "res", res))
+	tr.Emit(vh.E("Delete", "t", c.id, "tbl", td.name, "row", old, "len", recLen(old), "res", res, "trig", c.trigs()))
 }
 
 var _ = sort.Ints
